@@ -435,7 +435,12 @@ class FnTr:
         if node.id in self.mod.consts:
             return E(lit_str(self.mod.consts[node.id]), 'str')
         if node.id in self.mod.rx:
-            return self.rx_of_text(node, self.mod.rx[node.id])
+            r = self.rx_of_text(node, self.mod.rx[node.id])
+            if node.id in getattr(self.mod, 'rx_fresh', ()):
+                # (translate_fn.specialise_rx_helpers: the name stands for a pattern object that the ONE caller creates anew for each call and
+                #  uses for nothing else: its lastIndex is 0 when the helper starts)
+                r.fresh = True
+            return r
         if node.id in self.mod.opaque:
             refuse(node, 'the top-level name %s (line %s) has a value outside the rules' % (node.id, self.mod.opaque[node.id]))
         refuse(node, 'name %s is not bound here' % node.id)
